@@ -1,0 +1,64 @@
+//! Read-only structural snapshot of the tree, only compiled with the `verif-hooks` feature.
+use super::item::Item;
+use super::tree::{RegexTreeMap, UniqueRegexTreeMap};
+
+#[derive(Debug, Clone)]
+pub struct VerifNode {
+    /// "empty", "node" or "leaf"
+    pub kind: &'static str,
+    pub original: String,
+    pub regex: String,
+    pub compiled: bool,
+    pub ignore_case: bool,
+    pub ids: Vec<String>,
+    pub children: Vec<VerifNode>,
+}
+
+fn snapshot<V>(item: &Item<V>) -> VerifNode {
+    match item {
+        Item::Empty(ignore_case) => VerifNode {
+            kind: "empty",
+            original: String::new(),
+            regex: String::new(),
+            compiled: false,
+            ignore_case: *ignore_case,
+            ids: Vec::new(),
+            children: Vec::new(),
+        },
+        Item::Node(node) => VerifNode {
+            kind: "node",
+            original: node.regex.original.clone(),
+            regex: node.regex.regex.clone(),
+            compiled: node.regex.compiled.is_some(),
+            ignore_case: node.regex.ignore_case,
+            ids: Vec::new(),
+            children: node.children.iter().map(snapshot).collect(),
+        },
+        Item::Leaf(leaf) => {
+            let mut ids: Vec<String> = leaf.values.keys().cloned().collect();
+            ids.sort();
+
+            VerifNode {
+                kind: "leaf",
+                original: leaf.regex.original.clone(),
+                regex: leaf.regex.regex.clone(),
+                compiled: leaf.regex.compiled.is_some(),
+                ignore_case: leaf.regex.ignore_case,
+                ids,
+                children: Vec::new(),
+            }
+        }
+    }
+}
+
+impl<V> RegexTreeMap<V> {
+    pub fn verif_snapshot(&self) -> VerifNode {
+        snapshot(&self.root)
+    }
+}
+
+impl<V> UniqueRegexTreeMap<V> {
+    pub fn verif_snapshot(&self) -> VerifNode {
+        snapshot(&self.tree.root)
+    }
+}
